@@ -326,6 +326,18 @@ class AST2SCFGTransformer:
 
         """
         for node in tree:
+            if (
+                self.current_block.is_return()
+                or self.current_block.is_break()
+                or self.current_block.is_continue()
+            ):
+                # The current block has left already, whatever follows in
+                # this list is dead code. Seal the current block and put the
+                # dead code into a block of its own without predecessors, such
+                # that it can not change the jump targets of the current block.
+                self.seal_block(self.block_index)
+                self.add_block(self.block_index)
+                self.block_index += 1
             self.handle_ast_node(node)
 
     def handle_ast_node(self, node: type[ast.AST] | ast.stmt) -> None:
